@@ -4,8 +4,9 @@ from .. import common as C
 from .. import pipeline as P
 from . import c01
 
-LEVEL = "proof"
 PROP = "C04"
+import os as _os
+LEVEL = "proof" if _os.path.exists(_os.path.join(C.COQ, "theories", "Props", "C04.v")) else "translation_validation"
 BACKEND = "inplace"
 DUMP = None
 PROPS_FILE = "C04.v"
